@@ -1,6 +1,7 @@
 """C14 — molar mass is the composition-weighted sum of standard atomic weights"""
 from fractions import Fraction
 import random
+import warnings
 from lib.framework import Property
 from . import formula_gen as fg
 from .util import *
@@ -10,38 +11,126 @@ def _rand_case(rng, s):
     return ''.join(c.upper() if rng.random() < 0.5 else c.lower() for c in s)
 
 
+# names on which Python's str.capitalize()/str.lower() leave ASCII ('ſ'.capitalize() == 'S', 'ﬂ'.capitalize() == 'Fl',
+# 'ı'.capitalize() == 'I'): the real atomic_number answers 16 / 114 / 53 for them, the model is ASCII-only.
+NON_ASCII_NAMES = ['ſ', 'ﬂ', 'ı', 'ﬁ', 'ß', 'İ', 'K', 'Ｈ', 'ǆ', 'ſe', 'oſ', 'hydrogén', 'Ｈe', 'µ', 'ſulfur', 'ﬂerovium']
+
+DEFAULT_PHASES = ['(s)', '(l)', '(g)']
+PHASE_SETS = [DEFAULT_PHASES, DEFAULT_PHASES, DEFAULT_PHASES, ['(aq)'], ['(g)'], [], ['(s)', '(aq)'], ['(l)', '(g)', '(s)']]
+MUT_ALPHABET = "()[]{}+-./@*'0123456789abcdeglqrsuXYZHOCN·"
+
+
+def _el(z, cnt=None):
+    return {'t': 'el', 'z': z, 'cnt': cnt, 'state': '', 'marks': ''}
+
+
+def _single(terms, suffix='', charge=None):
+    return {'prefixes': [], 'sep': '..', 'parts': [{'n': None, 'terms': terms}], 'charge': charge, 'suffix': suffix}
+
+
+def _mutate(rng, s):
+    r = rng.random()
+    i = rng.randrange(len(s)) if s else 0
+    if r < 0.3 and s:
+        return s[:i] + s[i + 1:]
+    if r < 0.5 and s:
+        return s[:i] + s[i] + s[i:]
+    if r < 0.65 and len(s) > 1:
+        i = rng.randrange(len(s) - 1)
+        return s[:i] + s[i + 1] + s[i] + s[i + 2:]
+    return s[:i] + rng.choice(MUT_ALPHABET) + s[i:]
+
+
 class C14(Property):
     pid = 'C14'
     title = ('mass = sum(count * standard atomic weight) - charge * electron mass; table = IUPAC; '
              'case-insensitive symbol/name lookup inverse to the table; mass fractions positive, proportional, sum to one')
     props_module = 'ChemModel.Props.C14'
-    build_modules = ('ChemModel.Model.Periodic', 'ChemModel.Basic.Proto')
+    build_modules = ('ChemModel.Model.Periodic', 'ChemModel.Model.Formula', 'ChemModel.Driver.FormulaJson', 'ChemModel.Basic.Proto')
     driver = 'ChemModel/Driver/C14.lean'
-    n_quick, n_thorough = 1500, 30000
+    n_quick, n_thorough = 2000, 30000
     float_tol = 1e-12
-    rule = ('formula ASTs from tools/harness/formula_gen.py (all 118 elements, nested groups, hydrates, decimals, charges) '
-            'rendered and passed to Substance.from_formula; every symbol and name in random letter case plus near-miss strings; '
-            'random mixtures for mass_fractions. A case is non-trivial when it is a distinct JSON value and not an empty composition.')
-    assumptions = ('reference IUPAC table embedded in Props/C14.lean and tools/harness/ref_iupac.json is the specification',
+    rule = ('formula ASTs from tools/harness/formula_gen.py (all 118 elements, nested groups, hydrates, decimals, charges, prefixes, phase '
+            'suffixes) rendered and passed as TEXT to Substance.from_formula / Species.from_formula (several `phases`) / Solute.from_formula '
+            'and to the model parser; every symbol x every phase suffix (the class of formulas whose last symbol ends in a letter of the suffix) '
+            'through all three constructors; a malformed-formula stream; raw composition dicts incl. keys past the table; every symbol and name '
+            'in random letter case plus near-miss strings; non-ASCII names (oracle skips them explicitly); mixtures for mass_fractions incl. the '
+            'empty mixture and zero totals. A case is non-trivial when it is a distinct JSON value.')
+    assumptions = ('reference table embedded in Props/C14.lean and tools/harness/ref_iupac.json is the specification: IUPAC standard atomic '
+                   'weights (abridged/conventional values) for the 84 elements that have one, a pin of chempy\'s mass numbers for the other 34 '
+                   '(not an IUPAC claim); transcribed offline, identical to the repository table today (see notes/C14.md)',
                    'float rounding of the Python sum is not modelled: exact model vs float within 1e-12 relative',
-                   'ASCII names only (str.capitalize / str.lower on non-ASCII input is outside the model)')
+                   'ASCII names only: str.capitalize / str.lower on non-ASCII input (atomic_number("ſ") == 16 in the real code) is '
+                   'outside the model; such names are generated but skipped by model and oracle',
+                   'the formula parser model and its round-trip theorem are those of C01 (pyparsing semantics assumed there)',
+                   'negative composition keys (Python wraps around the table) are outside the model')
+    anchors = (('chempy/util/periodic.py', 'atomic_number'),
+               ('chempy/util/periodic.py', 'mass_from_composition'),
+               ('chempy/util/periodic.py', '_get_relative_atomic_masses'),
+               ('chempy/chemistry.py', 'Substance.mass'),
+               ('chempy/chemistry.py', 'Substance.from_formula'),
+               ('chempy/chemistry.py', 'Species.from_formula'),
+               ('chempy/chemistry.py', 'Solute.from_formula'),
+               ('chempy/chemistry.py', 'mass_fractions'),
+               ('chempy/util/parsing.py', 'formula_to_composition'))
+    clauses_without_theorem = (
+        '"agree with the IUPAC table" for the 34 elements without a standard atomic weight: theorem mass_numbers_pinned only pins the '
+        'mass numbers chempy uses (IUPAC editions differ: Tc 97/98, Lr 262/266, Rg 281/282, Mc 289/290, Ts 293/294); for the other 84 the '
+        'reference rows were transcribed offline and are identical to the repository table, so standard_weights_are_iupac guards against '
+        'future corruption rather than confirming the values independently',
+        'the link real code <-> model (Substance/Species/Solute.from_formula(...).mass, mass_from_composition, atomic_number, mass_fractions) '
+        'is correspondence only; float summation error of the real code is bounded by the 1e-12 tolerance, not proved',
+        'mass_fractions "of any mixture of such formulas": the theorem is about (mass, coefficient) pairs; that the masses are those of the '
+        'formulas, the optional `substances` registry and set input are oracle/correspondence only',
+        'Species.from_formula with non-default `phases`, Solute.from_formula: correspondence + oracle only (species_mass_spec covers the default phases)',
+        'additivity "over groups" inside arbitrary contexts is contained in formula_mass_spec (product of enclosing multipliers); the explicit '
+        'corollaries group_scales / hydrate_additive are stated for a top-level group and for the last hydrate part',
+        'non-ASCII names (str.capitalize/lower beyond ASCII) and period/group tables: no theorem (group table: correspondence only)',
+    )
 
+    # ------------------------------------------------------------------ generation
     def generate(self, rng, n, tier):
-        cases = []
+        cases = [{'op': 'table'}, {'op': 'mass_fractions', 'masses': [], 'coeffs': []},
+                 {'op': 'mass_fractions_formulas', 'formulas': [], 'asts': [], 'coeffs': []}]
         for z in range(1, 119):                     # every element, symbol and name, random case
             for nm in (fg.SYMBOLS[z - 1], fg.NAMES[z - 1]):
                 cases.append({'op': 'atomic_number', 'name': _rand_case(rng, nm), 'expect': z})
+        for nm in NON_ASCII_NAMES:
+            cases.append({'op': 'atomic_number', 'name': nm})
         for g in list(range(0, 20)):
             cases.append({'op': 'group', 'g': g})
         for z in range(1, 119):                     # every element's weight through the real formula path
-            f = fg.adjacency_formula(z, rng.randint(1, 118))
-            cases.append(self._formula_case(f))
+            cases.append(self._formula_case(fg.adjacency_formula(z, rng.randint(1, 118)), 'Substance'))
+        # every symbol x every phase suffix through the phase-aware constructors: the suffix letters s, l, g, a, q are also the
+        # last letters of many symbols (Hg(g), Cs(s), Na(aq), Al(l), Mg(g), Os(s), ...)
+        for z in range(1, 119):
+            for sfx in fg.SUFFIXES:
+                cnt = None if rng.random() < 0.7 else ['int', rng.randint(2, 9)]
+                f = _single([_el(z, cnt)], sfx)
+                cases.append(self._formula_case(f, 'Species', DEFAULT_PHASES))
+                cls = rng.choice(['Solute', 'Substance', 'Species'])
+                f2 = _single([_el(rng.randint(1, 118)), _el(z)], sfx, rng.choice([None, None, [1, None], [-1, 2]]))
+                cases.append(self._formula_case(f2, cls, rng.choice(PHASE_SETS)))
         k = max(0, n - len(cases))
         for i in range(k):
             r = rng.random()
-            if r < 0.6:
-                cases.append(self._formula_case(fg.gen_formula(rng, max_depth=3 if tier == 'quick' else 5)))
-            elif r < 0.75:
+            if r < 0.38:
+                cases.append(self._formula_case(fg.gen_formula(rng, max_depth=3 if tier == 'quick' else 5), 'Substance'))
+            elif r < 0.47:
+                cases.append({'op': 'ast_mass', 'ast': fg.gen_formula(rng, max_depth=3 if tier == 'quick' else 5)})
+            elif r < 0.58:
+                f = fg.gen_formula(rng, max_depth=2 if tier == 'quick' else 4)
+                if rng.random() < 0.7:
+                    f['suffix'] = rng.choice(fg.SUFFIXES)
+                cases.append(self._formula_case(f, rng.choice(['Species', 'Species', 'Solute']), rng.choice(PHASE_SETS)))
+            elif r < 0.64:
+                s = _mutate(rng, fg.render(fg.gen_formula(rng, max_depth=2)))
+                if rng.random() < 0.3:
+                    s = _mutate(rng, s)
+                cases.append({'op': 'formula_text', 's': s})
+            elif r < 0.70:
+                cases.append(self._comp_case(rng))
+            elif r < 0.82:
                 s = rng.choice(fg.SYMBOLS + fg.NAMES)
                 mut = rng.random()
                 if mut < 0.3:
@@ -50,8 +139,11 @@ class C14(Property):
                     s = s[:-1]
                 elif mut < 0.6:
                     s = s[::-1]
+                elif mut < 0.7:
+                    j = rng.randrange(len(s) + 1)
+                    s = s[:j] + rng.choice('ſıﬂéµ') + s[j:]
                 cases.append({'op': 'atomic_number', 'name': _rand_case(rng, s)})
-            else:
+            elif r < 0.92:
                 m = rng.randint(1, 5)
                 fs, asts = [], []
                 while len(fs) < m:
@@ -61,31 +153,81 @@ class C14(Property):
                         fs.append(f)
                         asts.append(a)
                 cases.append({'op': 'mass_fractions_formulas', 'formulas': fs, 'asts': asts,
-                              'coeffs': [rng.randint(1, 9) for _ in fs]})
+                              'coeffs': [rng.randint(1, 9) for _ in fs], 'as_set': rng.random() < 0.15})
+            else:
+                m = rng.randint(0, 4)
+                if rng.random() < 0.3 and m >= 2:        # exactly cancelling total (small integers: exact in floats too)
+                    ms = [rng.randint(1, 9) for _ in range(m)]
+                    vs = [rng.randint(1, 5) for _ in range(m - 1)]
+                    ms[-1] = 1
+                    vs.append(-sum(a * b for a, b in zip(ms, vs)))
+                else:
+                    ms = [rat_json(Fraction(rng.randint(1, 400000), 1000)) for _ in range(m)]
+                    vs = [rng.choice([1, 2, 3, 5, -1, 0, 7]) for _ in range(m)]
+                cases.append({'op': 'mass_fractions', 'masses': ms, 'coeffs': vs})
         return cases
 
-    def _formula_case(self, f):
-        return {'op': 'formula_mass', 'formula': fg.render(f), 'ast': f}
-
-    # the model is driven with the composition obtained from the real parser (C01 covers the parser)
-    def model_case(self, c):
-        from chempy import Substance
-        if c['op'] == 'formula_mass':
-            comp = Substance.from_formula(c['formula']).composition
-            return {'op': 'mass', 'comp': [[int(k), rat_json(Fraction(v))] for k, v in comp.items()]}
-        if c['op'] == 'mass_fractions_formulas':
-            ms = [Fraction(Substance.from_formula(f).mass) for f in c['formulas']]
-            return {'op': 'mass_fractions', 'masses': [rat_json(m) for m in ms], 'coeffs': c['coeffs']}
+    def _formula_case(self, f, cls, phases=None):
+        c = {'op': 'formula_mass', 'formula': fg.render(f), 'ast': f, 'cls': cls}
+        if cls == 'Species':
+            c['phases'] = list(phases if phases is not None else DEFAULT_PHASES)
         return c
 
+    def _comp_case(self, rng):
+        keys = rng.sample(range(0, 119), rng.randint(0, 6))
+        if rng.random() < 0.15:
+            keys.append(rng.randint(119, 140))
+        rng.shuffle(keys)
+        comp = []
+        for k in keys:
+            v = Fraction(rng.randint(-6, 12)) if rng.random() < 0.7 else Fraction(rng.randint(1, 9999), rng.choice([10, 100, 1000]))
+            comp.append([k, rat_json(v)])
+        return {'op': 'mass', 'comp': comp}
+
+    # ------------------------------------------------------------------ model / implementation
+    def model_case(self, c):
+        op = c['op']
+        if op == 'formula_mass':
+            if c['cls'] == 'Species':
+                return {'op': 'species_mass', 's': c['formula'], 'phases': c['phases'], 'cls': 'Species'}
+            return {'op': 'formula_mass', 's': c['formula'], 'cls': c['cls']}
+        if op == 'formula_text':
+            return {'op': 'formula_mass', 's': c['s'], 'cls': 'Substance'}
+        if op == 'mass_fractions_formulas':
+            from chempy import Substance
+            ms = [Fraction(Substance.from_formula(f).mass) for f in c['formulas']]
+            return {'op': 'mass_fractions', 'masses': [rat_json(m) for m in ms], 'coeffs': c['coeffs']}
+        if op == 'atomic_number' and not c['name'].isascii():
+            return None          # outside the ASCII-only model (documented in notes/C14.md)
+        if op == 'table':
+            return None
+        return c
+
+    def _make(self, cls, s, phases=None):
+        from chempy import Substance, Species
+        if cls == 'Species':
+            return Species.from_formula(s, phases=tuple(phases))
+        if cls == 'Solute':
+            from chempy.chemistry import Solute
+            with warnings.catch_warnings():
+                warnings.simplefilter('ignore')
+                return Solute.from_formula(s)
+        return Substance.from_formula(s)
+
     def impl(self, c):
-        from chempy import Substance
         from chempy.chemistry import mass_fractions
         from chempy.util import periodic
         op = c['op']
         try:
             if op == 'mass':
                 return repr(periodic.mass_from_composition({int(k): (Fraction(*v) if isinstance(v, list) else v) for k, v in c['comp']}))
+            if op in ('formula_mass', 'species_mass'):
+                return repr(self._make(c.get('cls', 'Substance'), c['s'], c.get('phases')).mass)
+            if op == 'ast_mass':
+                # the Lean specification value `occurrenceMass` against the harness' own exact denotation, and
+                # (instance of theorem formula_mass_spec) the model's parser+loop result on the rendered text
+                want = show_rat(fg.ref_mass(fg.composition(c['ast'])))
+                return '%s\t%s\t%s\ttrue' % (fg.render(c['ast']), want, want)
             if op == 'atomic_number':
                 return str(periodic.atomic_number(c['name']))
             if op == 'group':
@@ -102,33 +244,96 @@ class C14(Property):
             return exc_name(e)
         return '!unknown-op'
 
+    PARSE_EXC = ('ValueError', 'ParseException')
+    EXC = ('IndexError', 'ValueError', 'ZeroDivisionError', 'ParseException')
+
     def same(self, c, io, mo):
         op = c['op']
-        if op in ('atomic_number', 'group'):
+        if op in ('atomic_number', 'group', 'ast_mass'):
             return io == mo
-        if io in ('IndexError', 'ValueError', 'ZeroDivisionError') or mo in ('IndexError', 'ValueError', 'ZeroDivisionError'):
+        if op in ('formula_mass', 'species_mass') and io in self.PARSE_EXC and mo in self.PARSE_EXC:
+            # both refuse the text. Which of the two classes is raised depends on whether formula_to_latex (evaluated first by
+            # from_formula) or formula_to_composition trips first; the exact exception of the parser is C01's business.
+            return True
+        if io in self.EXC or mo in self.EXC:
             return io == mo
         try:
-            if op == 'mass':
+            if op in ('mass', 'formula_mass', 'species_mass'):
                 return close(float(io), parse_rat(mo), self.float_tol, 1e-300)
             if op == 'mass_fractions':
                 a, b = eval(io), parse_rat_list(mo)
-                return len(a) == len(b) and all(close(x, y, self.float_tol) for x, y in zip(a, b))
+                return len(a) == len(b) and all(close(x, y, self.float_tol, 1e-300) for x, y in zip(a, b))
         except Exception:
             return False
         return False
 
+    # ------------------------------------------------------------------ the property on the real code
     def oracle(self, c):
-        """the property on the real code, against the reference table (independent of the repo's table)"""
+        """the property on the real code, against the reference table (independent of the repo's table and of the Lean model)"""
         from chempy import Substance
         from chempy.chemistry import mass_fractions
         from chempy.util import periodic
+        import chempy
         op = c['op']
-        if op == 'formula_mass':
-            s = Substance.from_formula(c['formula'])
-            want = fg.ref_mass(fg.composition(c['ast']))
+        if op == 'table':
+            if tuple(periodic.symbols) != tuple(fg.SYMBOLS):
+                return 'symbols differ from the reference table'
+            if tuple(periodic.names) != tuple(fg.NAMES):
+                return 'names differ from the reference table'
+            if tuple(periodic.lower_names) != tuple(x.lower() for x in fg.NAMES):
+                return 'lower_names are not the lower-cased reference names'
+            ram = tuple(periodic.relative_atomic_masses)
+            if len(ram) != 118:
+                return 'relative_atomic_masses has %d entries' % len(ram)
+            for i, w in enumerate(fg.WEIGHTS):
+                if ram[i] != float(w):
+                    return 'relative_atomic_masses[%d] (%s) = %r, reference %r' % (i, fg.SYMBOLS[i], ram[i], float(w))
+            if chempy.atomic_number is not periodic.atomic_number and chempy.atomic_number('He') != 2:
+                return 'chempy.atomic_number is not the periodic lookup'
+            if mass_fractions({'H2O2'}) != {'H2O2': 1.0}:
+                return 'mass_fractions({"H2O2"}) = %r' % (mass_fractions({'H2O2'}),)
+            if mass_fractions({}) != {}:
+                return 'mass_fractions({}) = %r' % (mass_fractions({}),)
+        elif op == 'formula_mass':
+            comp = fg.composition(c['ast'])
+            want = fg.ref_mass(comp)
+            try:
+                s = self._make(c['cls'], c['formula'], c.get('phases'))
+            except Exception as e:
+                if c['cls'] == 'Species' and c['ast']['suffix'] and c['ast']['suffix'] not in list(c['phases']) + ['(aq)']:
+                    # a suffix the caller did not declare is not stripped; it is then read as a state token (or lands in the
+                    # charge token): the text is not a rendering of the AST under that Species' grammar, refusing it is legitimate
+                    return None
+                return '%s.from_formula(%r%s) raised %s' % (c['cls'], c['formula'], self._ph(c), exc_name(e))
+            got = dict(s.composition)
+            if set(got) != set(comp) or any(not close(got[k], comp[k], 1e-12) for k in comp):
+                return ('%s.from_formula(%r%s).composition = %r, written composition is %r'
+                        % (c['cls'], c['formula'], self._ph(c), dict(s.composition), {k: float(v) for k, v in comp.items()}))
             if not close(s.mass, want, 1e-9, 1e-12):
-                return 'mass of %s is %r, composition-weighted IUPAC sum is %r' % (c['formula'], s.mass, float(want))
+                return ('%s.from_formula(%r%s).mass = %r, composition-weighted reference sum is %r'
+                        % (c['cls'], c['formula'], self._ph(c), s.mass, float(want)))
+            if s.charge != comp.get(0, 0):
+                return 'charge of %s is %r' % (c['formula'], s.charge)
+            # an explicit data["mass"] wins over the computed one (documented special case of Substance.mass)
+            if c['cls'] == 'Substance' and len(c['formula']) % 7 == 0:
+                if Substance.from_formula(c['formula'], data={'mass': 1.25}).mass != 1.25:
+                    return 'data["mass"] is not returned by Substance.mass'
+        elif op == 'mass':
+            comp = {int(k): (Fraction(*v) if isinstance(v, list) else Fraction(v)) for k, v in c['comp']}
+            try:
+                got = periodic.mass_from_composition(comp)
+            except IndexError:
+                got = None
+            want = fg.ref_mass(comp) if all(k <= 118 for k in comp) else None
+            if (got is None) != (want is None):
+                return 'mass_from_composition(%r): %s' % (c['comp'], 'raised IndexError' if got is None else 'no IndexError for a key past the table')
+            if want is not None and not close(got, want, 1e-9, 1e-9):
+                return 'mass_from_composition(%r) = %r, reference sum %r' % (c['comp'], got, float(want))
+        elif op == 'atomic_number' and not c['name'].isascii():
+            # EXPLICIT SKIP: Python's str.capitalize()/str.lower() map some non-ASCII letters to ASCII ('ſ' -> 'S', 'ﬂ' -> 'Fl',
+            # 'ı' -> 'I'), so the real atomic_number('ſ') is 16. The property text speaks of case-insensitivity of symbols/names;
+            # what happens to non-ASCII look-alikes is outside the ASCII-only model and is NOT judged here (see notes/C14.md).
+            return None
         elif op == 'atomic_number' and 'expect' in c:
             try:
                 z = periodic.atomic_number(c['name'])
@@ -150,7 +355,19 @@ class C14(Property):
                 return 'atomic_number(%r) = %r, expected %r' % (c['name'], z, want)
         elif op == 'mass_fractions_formulas':
             st = dict(zip(c['formulas'], c['coeffs']))
-            r = mass_fractions(st)
+            if c.get('as_set'):
+                st = {f: 1 for f in st}
+            ms = {f: fg.ref_mass(fg.composition(a)) for f, a in zip(c['formulas'], c['asts'])}
+            tot = sum(ms[f] * v for f, v in st.items())
+            try:
+                r = mass_fractions(set(st)) if c.get('as_set') else mass_fractions(st)
+            except ZeroDivisionError:
+                # legitimate exactly for a non-empty mixture of total mass zero (e.g. the formula '[Fe]0')
+                return None if (st and tot == 0) else 'mass_fractions(%r) raised ZeroDivisionError' % (st,)
+            if st and tot == 0:
+                return 'mass_fractions(%r) returned %r for a mixture of total mass zero' % (st, r)
+            if set(r) != set(st):
+                return 'mass_fractions(%r) has keys %r' % (st, sorted(r))
             # same mixture with an explicit registry (superset, different order): must give the same fractions
             reg = {'H2O': Substance.from_formula('H2O')}
             for f in reversed(c['formulas']):
@@ -159,21 +376,47 @@ class C14(Property):
             for f in st:
                 if not close(r2[f], r[f], 1e-12):
                     return 'mass_fractions(%r, substances=<registry in another order>)[%r] = %r but %r without registry' % (st, f, r2[f], r[f])
-            ms = {f: fg.ref_mass(fg.composition(a)) for f, a in zip(c['formulas'], c['asts'])}
-            tot = sum(ms[f] * v for f, v in st.items())
-            if tot != 0:
+            if st and tot != 0:
                 if not close(sum(r.values()), 1.0, 1e-9):
-                    return 'mass fractions sum to %r' % sum(r.values())
+                    return 'mass fractions of %r sum to %r' % (st, sum(r.values()))
                 for f, v in st.items():
                     if not close(r[f], ms[f] * v / tot, 1e-9, 1e-12):
-                        return 'mass fraction of %s is %r, expected %r' % (f, r[f], float(ms[f] * v / tot))
+                        return 'mass fraction of %s in %r is %r, expected %r' % (f, st, r[f], float(ms[f] * v / tot))
+                    if ms[f] * v > 0 and not r[f] > 0:
+                        return 'mass fraction of %s in %r is %r, not positive' % (f, st, r[f])
+        elif op == 'mass_fractions':
+            ms = [Fraction(*m) if isinstance(m, list) else Fraction(m) for m in c['masses']]
+            out = self.impl(c)
+            tot = sum(m * v for m, v in zip(ms, c['coeffs']))
+            if not ms:
+                if out != '[]':
+                    return 'mass_fractions of the empty mixture gave %s' % out
+            elif tot == 0:
+                if out != 'ZeroDivisionError':
+                    return 'mass_fractions with zero total mass gave %s' % out
+            else:
+                try:
+                    r = eval(out)
+                except Exception:
+                    return 'mass_fractions(masses=%r, coeffs=%r) gave %s' % (c['masses'], c['coeffs'], out)
+                if not close(sum(r), 1.0, 1e-9, 1e-12):
+                    return 'mass fractions (masses=%r, coeffs=%r) sum to %r' % (c['masses'], c['coeffs'], sum(r))
+                for x, m, v in zip(r, ms, c['coeffs']):
+                    if not close(x, m * v / tot, 1e-9, 1e-12):
+                        return 'mass fraction %r, expected %r (masses=%r, coeffs=%r)' % (x, float(m * v / tot), c['masses'], c['coeffs'])
         return None
+
+    @staticmethod
+    def _ph(c):
+        return ', phases=%r' % (tuple(c['phases']),) if c.get('phases') is not None and c['cls'] == 'Species' else ''
 
     def classify(self, c):
         if c['op'] == 'formula_mass':
-            return 'formula_mass:depth%d%s%s' % (fg.depth(c['ast']), ':dec' if fg.has_decimal(c['ast']) else '',
-                                                  ':chg' if c['ast']['charge'] else '')
+            return 'formula_mass:%s:depth%d%s%s%s' % (c['cls'], fg.depth(c['ast']), ':dec' if fg.has_decimal(c['ast']) else '',
+                                                      ':chg' if c['ast']['charge'] else '', ':sfx' if c['ast']['suffix'] else '')
         if c['op'] == 'atomic_number':
+            if not c['name'].isascii():
+                return 'atomic_number:non-ascii(skipped)'
             return 'atomic_number:' + ('listed' if 'expect' in c else 'mutated')
         return c['op']
 
